@@ -87,7 +87,7 @@ class Pair:
         return self.A.linked and self.B.linked and b.active and not b.closed and not b.eof_received
 
     def view(self):
-        return "A[%s] B[%s] ab=%s ba=%s cr=%d" % (self.A.view(), self.B.view(), ",".join(self.ab) or "-",
+        return "A[%s] B[%s] ab=%s ba=%s cr=%d" % (self.A.view(False), self.B.view(False), ",".join(self.ab) or "-",
                                                   ",".join(self.ba) or "-", self.credits())
 
     def teardown(self):
@@ -103,40 +103,54 @@ def normalise(line):
 
 
 def fair_phase(rng, pair, step):
-    """a's thread 0 must get `n` more bytes through while b's thread 0 keeps reading and the network delivers.
+    """Two writers of a (threads 0 and 1: sendall and sendall_stderr, the usual server pattern) must get their
+    bytes through while b's reader keeps reading and the network delivers.  STRICT scheduling: a sender asleep in
+    out_buffer_cv.wait runs again only if the real code has notified it.
     Returns (outcome, rounds): outcome in done / raised:<x> / stuck / skipped"""
     A, B, nthr = pair.A, pair.B, pair.nthr
     tp = nthr - 1
     step("L mode b")
     step("R mode n")
-    # let thread 0 of a finish whatever it was doing
-    guard = 0
-    while A.threads[0].state != "idle":
-        st = A.threads[0].state
-        step({"hold": "L emit 0", "waiting": "L wake 0 1000", "loophead": "L iter 0", "gotbytes": "L check 0"}[st])
-        guard += 1
-        if guard > 200:
-            return "skipped", 0
-    if A.threads[0].state != "idle" or A.chan.closed or A.chan.eof_sent:
+    writers = [t for t in (0, 1) if t != tp]
+    # let the writers finish whatever they were doing (spurious wake-ups with a long elapsed time end timed waits)
+    for t in writers:
+        guard = 0
+        while A.threads[t].state != "idle":
+            st = A.threads[t].state
+            if st == "waiting" and A.threads[t].info is None and not A.is_signalled(t):
+                break       # blocked for good in a blocking send of the random part: leave it parked
+            step({"hold": "L emit %d", "waiting": "L wake %d 1000", "loophead": "L iter %d",
+                  "gotbytes": "L check %d"}[st] % t)
+            guard += 1
+            if guard > 200:
+                return "skipped", 0
+    writers = [t for t in writers if A.threads[t].state == "idle"]
+    if not writers or A.chan.closed or A.chan.eof_sent:
         return "skipped", 0     # sendall on a channel shut down for writing is C25's subject
-    n = rng.choice([1, 4000, 40000, pair.winB, pair.winB + 1, 2 * pair.winB + 17] if pair.winB <= 70000
-                   else [1, 4000, 70000, 150000])
-    step("L sendall 0 %d %d" % (n, rng.randrange(2)))
+    big = rng.choice([4000, 40000, pair.winB, pair.winB + 1, 2 * pair.winB + 17] if pair.winB <= 70000
+                     else [4000, 70000, 150000])
+    wants = {}
+    order = list(writers)
+    rng.shuffle(order)
+    for k, t in enumerate(order):
+        n = big if k == 0 else rng.choice([1, 300, 3000])
+        wants[t] = n
+        step("L sendall %d %d %d" % (t, n, (t + rng.randrange(2)) % 2))
     rounds = 0
     while True:
         rounds += 1
         before = pair.view()
-        lt = A.threads[0]
-        if lt.state == "idle":
-            return ("done" if lt.result == "D%d" % n else "raised:" + lt.result), rounds
-        # the writer and every other thread of a that is mid-call
+        if all(A.threads[t].state == "idle" for t in wants):
+            bad = [A.threads[t].result for t in wants if A.threads[t].result != "D%d" % wants[t]]
+            return ("done" if not bad else "raised:" + bad[0]), rounds
+        # the writers and every other thread of a that is mid-call
         for t, x in enumerate(A.threads):
             if x.state == "hold":
                 step("L emit %d" % t)
             elif x.state == "loophead":
                 step("L iter %d" % t)
-            elif x.state == "waiting" and t == 0:
-                step("L wake 0 0")
+            elif x.state == "waiting" and A.is_signalled(t):
+                step("L wake %d 0" % t)
             elif x.state == "gotbytes":
                 step("L check %d" % t)
         # the network, a -> b (the transport thread of b first finishes writing its own replies)
@@ -155,7 +169,7 @@ def fair_phase(rng, pair, step):
             idle = [t for t, x in enumerate(B.threads) if x.state == "idle"]
             if idle and len(B.chan.in_stderr_buffer if err else B.chan.in_buffer) > 0:
                 rd = idle[0]
-                step("R recv %d %d %d" % (rd, rng.choice([100, 5000, 1 << 20]), err))
+                step("R recv %d %d %d" % (rd, rng.choice([100, 5000, 1 << 20, 1 << 20]), err))
                 if B.threads[rd].state == "gotbytes":
                     step("R check %d" % rd)
                 if B.threads[rd].state == "hold":
@@ -173,7 +187,7 @@ def fair_phase(rng, pair, step):
 
 
 def run_pair(ctx, rng, with_close):
-    nthr = rng.choice([2, 3, 3])
+    nthr = rng.choice([3, 3, 4])
     winA = rng.choice([32768, 65536, 1 << 21])
     winB = rng.choice([32768, 32768, 40000, 65536, 1 << 21, U32])
     maxA = rng.choice([4096, 32768, U32])
@@ -191,6 +205,12 @@ def run_pair(ctx, rng, with_close):
         info["steps"] += 1
         if pair.last_discard:
             info["discards"] += 1
+        for side, rig in (("a", pair.A), ("b", pair.B)):
+            lw = rig.lost_wakeup()
+            if lw is not None and not fails:
+                fails.append(("lost-wakeup:parked-sender-not-notified",
+                              "side %s thread %d sleeps in out_buffer_cv.wait un-notified with out_window_size=%d "
+                              "after %r" % (side, lw, rig.chan.out_window_size, op)))
         for rev, win in ((False, winB), (True, winA)):
             if pair.open_for_accounting(rev) and pair.credits(rev) != win and not fails:
                 fails.append(("window-credit-lost:discarded-extended-data" if pair.last_discard or info["discards"]
@@ -257,6 +277,13 @@ def run(ctx):
     ctx.assume("fairness: the reader keeps calling recv/recv_stderr, the transports keep delivering, a blocked writer "
                "is eventually woken (hypotheses of the liveness reading of stuck_impossible)",
                "shutdown_read() by the application ends accounting (the application declared it stopped reading)")
+    # ---- (T) every out_buffer_cv.notify… call site of channel.py (kind, locked) from its AST
+    import paramiko.channel as chmod
+    from pv import lib_chanlock
+    sites, notifies = lib_chanlock.channel_tables(chmod.Channel)
+    ctx.write_generated("ChanLock", lib_chanlock.lean_tables(sites, notifies))
+    ctx.extra["notify_sites"] = ["%s:%s:%s" % (x["caller"], x["kind"], "locked" if x["eff"] else "UNLOCKED")
+                                 for x in notifies]
     ctx.build(extra_modules=["PV.Model.ChanDriver"])
     rng = ctx.rng
     n = 6000 if ctx.thorough else 1500
@@ -304,6 +331,10 @@ META = {
               "messages, deliveries, reads of buffered data, _check_add_window) is bounded by a measure "
               "(draining_terminates), a state with no drain action enabled is quiescent (drained_is_quiescent), hence "
               "has an open window (drained_sender_window_open). conservation_reverse: same for the other direction. "
+              "Several parked senders: wakeups_notify_all (every out_buffer_cv.notify… call site, regenerated from the "
+              "AST of channel.py, is notify_all under the lock), no_lost_wakeup (strict scheduling: an un-notified "
+              "sleeper sees a zero window, so with an open window every parked sender is notified), "
+              "notified_sleeper_is_enabled, notify_one_strands_second_sender_witness. "
               "C20_witness: the code before the repair loses discarded bytes for good."),
     "note": ("Liveness is stated as impossibility of the stuck state plus progress of a woken writer; 'eventually' "
              "needs the fairness hypotheses listed under assumptions (reader keeps reading, links deliver, waiter is "
